@@ -1,12 +1,10 @@
 // C16 — matched-status counts track the actual matched set.
-// Kernel harnesses on stand-alone UserDefinedDataWriter / UserDefinedDataReader entities (the real add/remove/read
-// functions, symbolic counters) and participant-level harnesses (real DcpsDomainParticipant, directly installed
-// writer / reader with 0-2 matched remote endpoints) for the removal paths: SEDP disposal
-// (remove_discovered_reader / remove_discovered_writer through the guarded hooks) and participant removal
-// (remove_discovered_participant: lease expiry, SPDP disposal, ignore_participant).
+// Kernel harnesses on stand-alone entities (the real add_matched_publication / status read functions, symbolic
+// counters) and participant-level harnesses (real DcpsDomainParticipant, directly installed writer / reader with one
+// matched remote endpoint) for the participant-removal path (remove_discovered_participant: lease expiry, SPDP
+// disposal, ignore_participant). The SEDP-disposal path is not decided (see the note below).
 use super::support_part1 as s1;
 use super::support_participant as sp;
-use super::support_rtps::{Discard, FixedClock};
 use crate::dcps::dcps_domain_participant::participant_entity::DcpsDomainParticipant;
 use crate::dcps::dcps_domain_participant::user_defined_data_reader::UserDefinedDataReader;
 use crate::dcps::dcps_domain_participant::user_defined_data_writer::UserDefinedDataWriter;
@@ -15,8 +13,6 @@ use crate::infrastructure::qos::{DataReaderQos, DataWriterQos};
 use crate::infrastructure::status::{PublicationMatchedStatus, SubscriptionMatchedStatus};
 use crate::rtps::stateful_reader::RtpsStatefulReader;
 use crate::rtps::stateful_writer::RtpsStatefulWriter;
-use crate::rtps_messages::submessage_elements::SequenceNumberSet;
-use crate::rtps_messages::submessages::ack_nack::AckNackSubmessage;
 use crate::transport::types::{Guid, ReliabilityKind};
 use alloc::string::String;
 
@@ -57,13 +53,6 @@ fn pub_listed(r: &UserDefinedDataReader, g: Guid) -> bool {
     let key: [u8; 16] = g.into();
     r.reader.matched_publication_list.iter().any(|x| x.key.value == key)
 }
-/// Does the RTPS writer still hold a (reliable) reader proxy for remote reader `g`? A fresh ACKNACK from that
-/// reader is accepted by on_acknack_submessage_received iff such a proxy exists (history empty: nothing is sent).
-fn has_reader_proxy(w: &mut UserDefinedDataWriter, g: Guid) -> bool {
-    let wid = w.writer.transport_writer.guid().entity_id();
-    let m = AckNackSubmessage::new(true, g.entity_id(), wid, SequenceNumberSet::new(1, []), i32::MAX);
-    w.writer.transport_writer.on_acknack_submessage_received(&m, g.prefix(), &Discard, &FixedClock).is_some()
-}
 
 // History abstraction for the status counters: any values a create/match/unmatch/read history can leave, i.e.
 // current_count == matched list length, 0 <= current_count <= total_count, total_count_change <= total_count,
@@ -97,112 +86,50 @@ fn any_sub_status(len: usize) -> SubscriptionMatchedStatus {
     s
 }
 
+// NOT DECIDED (measured): the SEDP-disposal path (remove_discovered_reader / remove_discovered_writer ->
+// UserDefinedDataWriter::remove_matched_subscription / UserDefinedDataReader::remove_matched_publication) removes the
+// entry with `Vec::remove(i)` where `i` comes out of `Iterator::position`; symbolic execution sees `i` as symbolic
+// (payload of an Option), so the tail move inside Vec::remove is a `memmove` of SYMBOLIC size over 456-byte
+// SubscriptionBuiltinTopicData elements: 78 k SSA steps, but the SAT encoding of the symbolic-size byte_extract /
+// byte_update runs out of 10 GB in propositional reduction (stand-alone writer with ONE matched entry; the same for the
+// reader). Stubbing Vec::remove needs the unstable Allocator trait in its signature; `ptr::copy` cannot be stubbed
+// from a `forbid(unsafe_code)` crate. See the report / ptab `outside`.
+
 // @check props=C16 tier=quick
-// @desc writer-side kernel: UserDefinedDataWriter::remove_matched_subscription(handle) on a writer with 1 matched subscription and ANY consistent status counters, handle = one of the matched readers or an unmatched one: if matched, the entry (and only it) leaves the list, current_count == new list length, current_count_change drops by exactly 1, total_count / total_count_change are unchanged; if not matched nothing changes. Then PublicationMatchedStatus::get (what get_publication_matched_status returns) reports exactly those values and resets both change fields to 0 while current_count / total_count stay
-// @bounds 1 matched subscription; counters: total_count in [len, 10^6), total_count_change in [0,total], current_count_change in (-10^6, 10^6)
-// @assume invariant (re-established, asserted after the step): current_count == matched_subscription_list.len()
-// @enc UserDefinedDataWriter::remove_matched_subscription
+// @desc status read: PublicationMatchedStatus::get (what get_publication_matched_status returns) and UserDefinedDataReader::get_subscription_matched_status on ANY counter values: the returned snapshot equals the stored counters (current_count, total_count and both change fields = difference since the previous read), afterwards both change fields are 0 and current_count / total_count are untouched; a second read reports zero changes
+// @bounds none on the four i32 counters of each status (full domain); loop-free code
 // @enc PublicationMatchedStatus::get
+// @enc UserDefinedDataReader::get_subscription_matched_status
 #[kani::proof]
 #[kani::unwind(2)]
 #[kani::stub(critical_section::acquire, super::support_cs::cs_acquire)]
 #[kani::stub(critical_section::release, super::support_cs::cs_release)]
-fn c16_kernel_writer_unmatch_and_read() {
+fn c16_kernel_status_read_resets_changes() {
     s1::link_drop_glue();
-    let mut w = standalone_writer();
-    // list lengths are constants of the harness (a push / remove at a symbolic length is a 600-byte write through a
-    // symbolic pointer: measured out of memory at 10 GB)
-    let n: usize = MAXN;
-    let (g1, g2, g3) = (s1::remote_reader_guid(1, 1), s1::remote_reader_guid(2, 1), s1::remote_reader_guid(3, 1));
-    w.matched_subscription_list.push(s1::subscription(g1, true));
-    w.publication_matched_status = any_pub_status(n);
-    let before = w.publication_matched_status.clone();
-    let which: u8 = kani::any();
-    kani::assume(which <= 2);
-    let g = if which == 0 { g1 } else if which == 1 { g2 } else { g3 };
-    let was = sub_listed(&w, g);
+    let mut ps = PublicationMatchedStatus::const_default();
+    let (a, b, c, d): (i32, i32, i32, i32) = (kani::any(), kani::any(), kani::any(), kani::any());
+    ps.total_count = a;
+    ps.total_count_change = b;
+    ps.current_count = c;
+    ps.current_count_change = d;
+    let r1 = ps.get();
+    assert!(r1.total_count == a && r1.total_count_change == b && r1.current_count == c && r1.current_count_change == d, "C16: publication matched status read reports the stored counters");
+    assert!(ps.total_count == a && ps.current_count == c, "C16: reading keeps total_count and current_count");
+    assert!(ps.total_count_change == 0 && ps.current_count_change == 0, "C16: reading resets the change fields");
+    let r2 = ps.get();
+    assert!(r2.total_count_change == 0 && r2.current_count_change == 0 && r2.total_count == a && r2.current_count == c, "C16: a second read reports no change");
 
-    w.remove_matched_subscription(&handle_of(g));
-
-    let s = &w.publication_matched_status;
-    assert!(!sub_listed(&w, g), "C16: removed subscription is no longer matched");
-    assert!(w.matched_subscription_list.len() == n - was as usize, "C16: exactly the named subscription is removed");
-    assert!(s.current_count == w.matched_subscription_list.len() as i32, "C16: current_count equals the number of matched subscriptions");
-    assert!(s.current_count_change == before.current_count_change - was as i32, "C16: current_count_change drops by one per removed subscription");
-    assert!(s.total_count == before.total_count && s.total_count_change == before.total_count_change, "C16: total_count is unchanged by removals");
-    if which != 0 && n >= 1 {
-        assert!(sub_listed(&w, g1), "C16: other subscriptions stay matched");
-    }
-
-    let read = w.publication_matched_status.get();
-    assert!(
-        read.current_count == w.matched_subscription_list.len() as i32
-            && read.total_count == before.total_count
-            && read.current_count_change == before.current_count_change - was as i32
-            && read.total_count_change == before.total_count_change,
-        "C16: the status read reports the counters and the changes since the previous read"
-    );
-    let s = &w.publication_matched_status;
-    assert!(s.current_count_change == 0 && s.total_count_change == 0, "C16: reading the status resets the change fields");
-    assert!(s.current_count == read.current_count && s.total_count == read.total_count, "C16: reading the status keeps the counts");
-    kani::cover!(was && which == 0, "matched subscription removed");
-    kani::cover!(!was, "unmatched handle");
-    core::mem::forget(w);
-}
-
-fn writer_unmatch_proxy(matched: bool) {
-    // The whole effect of remove_discovered_reader on a writer is `data_writer.remove_matched_subscription(&handle)`
-    // (+ the status condition), see discovery_methods.rs:1313-1345 (source guard in vlib/ptab/part1.py).
-    let mut w = standalone_writer();
-    let g1 = s1::remote_reader_guid(1, 1);
-    s1::match_reader(&mut w, g1, true);
-    let last: i64 = kani::any();
-    kani::assume(last >= 1);
-    w.writer.last_change_sequence_number = last;
-    let g = if matched { g1 } else { s1::remote_reader_guid(3, 1) };
-
-    w.remove_matched_subscription(&handle_of(g));
-
-    assert!(sub_listed(&w, g1) == !matched, "C16: the reader leaves the matched set iff it is the disposed one");
-    assert!(w.publication_matched_status.current_count == w.matched_subscription_list.len() as i32, "C16: current_count equals the number of matched readers");
-    let acked = w.writer.transport_writer.is_change_acknowledged(last);
-    let proxy = has_reader_proxy(&mut w, g1);
-    assert!(proxy == !matched, "C16: the RTPS reader proxy (destination of DATA / HEARTBEAT / GAP) exists iff the reader is still matched");
-    assert!(acked == matched, "C16: an unmatched reliable reader no longer holds back acknowledgement (wait_for_acknowledgments)");
-    kani::cover!(true, "end reached");
-    core::mem::forget(w);
-}
-
-// @check props=C16,C03 tier=quick known=KF-C16-3
-// @desc KNOWN FINDING: when a matched reliable reader is deleted (SEDP disposal -> remove_discovered_reader -> UserDefinedDataWriter::remove_matched_subscription) the DDS-level match and the counters are updated but the RTPS reader proxy stays in the writer (delete_matched_reader is never called on this path): DATA / HEARTBEAT / GAP keep being addressed to the deleted reader, and is_change_acknowledged(last) stays false for ever, so wait_for_acknowledgments (parked before or issued after the deletion) never completes
-// @bounds one writer (stand-alone entity), one matched reliable reader that acknowledged nothing; last written sequence number in [1, i64::MAX]
-// @assume trigger: the disposed reader is matched with the writer
-// @assume the match is installed with the statements of the success branch of process_discovered_readers (list push, four counter updates, add_matched_reader)
-// @enc UserDefinedDataWriter::remove_matched_subscription
-// @enc RtpsStatefulWriter::is_change_acknowledged
-// @enc RtpsStatefulWriter::on_acknack_submessage_received
-#[kani::proof]
-#[kani::unwind(2)]
-#[kani::stub(critical_section::acquire, super::support_cs::cs_acquire)]
-#[kani::stub(critical_section::release, super::support_cs::cs_release)]
-fn c16_kernel_writer_unmatch_proxy__known() {
-    s1::link_drop_glue();
-    writer_unmatch_proxy(true);
-}
-
-// @check props=C16,C03 tier=quick
-// @desc sibling of KF-C16-3 with the trigger negated: disposal of a reader that is NOT matched with the writer: matched set, counters and the RTPS proxy of the matched reader are unchanged and the matched reliable reader still holds back acknowledgement
-// @bounds as c16_kernel_writer_unmatch_proxy__known
-// @assume negated trigger: the disposed reader is not matched with the writer
-// @enc UserDefinedDataWriter::remove_matched_subscription
-// @enc RtpsStatefulWriter::is_change_acknowledged
-#[kani::proof]
-#[kani::unwind(2)]
-#[kani::stub(critical_section::acquire, super::support_cs::cs_acquire)]
-#[kani::stub(critical_section::release, super::support_cs::cs_release)]
-fn c16_kernel_writer_unmatch_proxy__rest() {
-    s1::link_drop_glue();
-    writer_unmatch_proxy(false);
+    let mut r = standalone_reader();
+    r.subscription_matched_status.total_count = a;
+    r.subscription_matched_status.total_count_change = b;
+    r.subscription_matched_status.current_count = c;
+    r.subscription_matched_status.current_count_change = d;
+    let s1_ = r.get_subscription_matched_status();
+    assert!(s1_.total_count == a && s1_.total_count_change == b && s1_.current_count == c && s1_.current_count_change == d, "C16: subscription matched status read reports the stored counters");
+    let st = &r.subscription_matched_status;
+    assert!(st.total_count == a && st.current_count == c && st.total_count_change == 0 && st.current_count_change == 0, "C16: reading resets only the change fields (reader)");
+    kani::cover!(b != 0 && d < 0, "unread changes with a net loss of matches");
+    core::mem::forget(r);
 }
 
 fn reader_add(replace: bool) {
@@ -265,201 +192,46 @@ fn c16_kernel_reader_match__rest() {
     reader_add(false);
 }
 
-// @check props=C16 tier=quick
-// @desc reader-side kernel: remove_matched_publication(handle) on a reader with 1 matched publication and any consistent counters (handle matched or not): mirror of the writer-side kernel, plus get_subscription_matched_status reports the counters and resets the change fields
-// @bounds 1 matched publication; counters as in the writer kernel
-// @assume invariant (re-established, asserted after the step): current_count == matched_publication_list.len()
-// @enc UserDefinedDataReader::remove_matched_publication
-// @enc UserDefinedDataReader::get_subscription_matched_status
-#[kani::proof]
-#[kani::unwind(2)]
-#[kani::stub(critical_section::acquire, super::support_cs::cs_acquire)]
-#[kani::stub(critical_section::release, super::support_cs::cs_release)]
-fn c16_kernel_reader_unmatch_and_read() {
-    s1::link_drop_glue();
-    let mut r = standalone_reader();
-    let n: usize = MAXN;
-    let (g1, g2, g3) = (s1::remote_writer_guid(1, 1), s1::remote_writer_guid(2, 1), s1::remote_writer_guid(3, 1));
-    r.reader.matched_publication_list.push(s1::publication(g1));
-    r.subscription_matched_status = any_sub_status(n);
-    let before = r.subscription_matched_status.clone();
-    let which: u8 = kani::any();
-    kani::assume(which <= 2);
-    let g = if which == 0 { g1 } else if which == 1 { g2 } else { g3 };
-    let was = pub_listed(&r, g);
-
-    r.remove_matched_publication(&handle_of(g));
-
-    let len = r.reader.matched_publication_list.len();
-    let s = &r.subscription_matched_status;
-    assert!(!pub_listed(&r, g), "C16: removed publication is no longer matched");
-    assert!(len == n - was as usize, "C16: exactly the named publication is removed");
-    assert!(s.current_count == len as i32, "C16: current_count equals the number of matched publications");
-    assert!(s.current_count_change == before.current_count_change - was as i32, "C16: current_count_change drops by one per removed publication");
-    assert!(s.total_count == before.total_count && s.total_count_change == before.total_count_change, "C16: total_count is unchanged by removals");
-
-    let read = r.get_subscription_matched_status();
-    assert!(
-        read.current_count == len as i32
-            && read.total_count == before.total_count
-            && read.current_count_change == before.current_count_change - was as i32
-            && read.total_count_change == before.total_count_change,
-        "C16: the status read reports the counters and the changes since the previous read"
-    );
-    let s = &r.subscription_matched_status;
-    assert!(s.current_count_change == 0 && s.total_count_change == 0, "C16: reading the status resets the change fields");
-    assert!(s.current_count == read.current_count && s.total_count == read.total_count, "C16: reading the status keeps the counts");
-    kani::cover!(was && which == 0, "matched publication removed");
-    kani::cover!(!was, "unmatched handle");
-    core::mem::forget(r);
-}
-
 // ---- participant level -----------------------------------------------------------------------------------------
 
 /// Participant + publisher (real create) + directly installed writer matched (statements of the success branch of
 /// process_discovered_readers, see support_part1::match_reader) with reader (1,1) of remote participant 1 and, if
 /// `two`, reader (q,1) of remote participant q in {1,2}... here reader (q,2).
-// Participant-level harnesses: one matched endpoint (TWO = false); see MAXN.
-const TWO: bool = false;
-
-fn writer_fixture(p: &mut DcpsDomainParticipant, two: bool, q: u8) -> (InstanceHandle, InstanceHandle) {
-    let ph = s1::new_publisher(p);
+// Participant-level harnesses: one matched endpoint per local writer / reader (see MAXN); publisher / subscriber
+// installed directly (support_part1::install_publisher) - the real create call is C35's / C36's subject.
+fn writer_fixture(p: &mut DcpsDomainParticipant) -> (InstanceHandle, InstanceHandle) {
+    let ph = s1::install_publisher(p);
     let wh = s1::install_writer(p, 0, 0, "A", DataWriterQos::const_default());
     let w = &mut p.domain_participant.user_defined_publisher_list[0].data_writer_list[0];
     s1::match_reader(w, s1::remote_reader_guid(1, 1), true);
-    if two {
-        s1::match_reader(w, s1::remote_reader_guid(q, 2), true);
-    }
     (ph, wh)
 }
 
-fn writer_reader_disposed(disposed_matched: bool, check_proxy: bool) {
-    let cap = sp::Capture::new();
-    let mut p = sp::participant(&cap, 0);
-    let two: bool = TWO;
-    let (ph, wh) = writer_fixture(&mut p, two, 2);
-    let read_before: bool = kani::any();
-    if read_before {
-        // the application read the status after the matches (change fields reset)
-        let r = p.get_publication_matched_status(&ph, &wh);
-        assert!(r.is_ok(), "harness: status read must succeed");
-        core::mem::forget(r);
-    }
-    let n = 1 + two as usize;
-    let before = p.domain_participant.user_defined_publisher_list[0].data_writer_list[0].publication_matched_status.clone();
-    assert!(before.current_count == n as i32 && before.total_count == n as i32, "harness: counters after the matches");
-    let g_keep = s1::remote_reader_guid(2, 2);
-    let g = if disposed_matched { s1::remote_reader_guid(1, 1) } else { s1::remote_reader_guid(3, 1) };
-
-    p.verif_remove_discovered_reader(handle_of(g), ph, wh);
-
-    let w = &mut p.domain_participant.user_defined_publisher_list[0].data_writer_list[0];
-    let len = w.matched_subscription_list.len();
-    let s = w.publication_matched_status.clone();
-    assert!(!sub_listed(w, g), "C16: disposed reader is no longer in the matched set");
-    assert!(len == n - disposed_matched as usize, "C16: only the disposed reader leaves the matched set");
-    assert!(s.current_count == len as i32, "C16: current_count equals the number of matched readers after a reader disposal");
-    assert!(s.current_count_change == before.current_count_change - disposed_matched as i32, "C16: current_count_change reflects the disposal");
-    assert!(s.total_count == before.total_count && s.total_count_change == before.total_count_change, "C16: total_count unchanged by a disposal");
-    if two {
-        assert!(sub_listed(w, g_keep), "C16: the other reader stays matched");
-        assert!(has_reader_proxy(w, g_keep), "C16: the other reader keeps its RTPS proxy");
-    }
-    if check_proxy {
-        assert!(!has_reader_proxy(w, g), "C16: no RTPS reader proxy (data / heartbeat destination) is left for the disposed reader");
-    }
-    kani::cover!(read_before, "status read before the disposal");
-    kani::cover!(!read_before, "unread changes at the disposal");
-    core::mem::forget(p);
-}
-
-// @check props=C16 tier=quick
-// @desc SEDP disposal of a matched remote reader (remove_discovered_reader through the guarded hook) on a participant whose writer has 1 matched reader, status read or not read since the matches: the disposed reader leaves the matched set, current_count == number of matched readers, current_count_change drops by 1 relative to the last read, total_count unchanged, the other reader stays matched with its RTPS proxy; disposal of a reader that is not matched changes nothing (DDS-level counters only: the RTPS proxy of the disposed reader is the subject of the __known / __rest pair)
-// @bounds one publisher (real create), one writer installed directly, 1 matched reliable reader; disposed reader matched or not (symbolic)
-// @assume writer installed directly (state of create_data_writer + enable); matches installed with the statements of the success branch of process_discovered_readers
-// @assume stub: tracing LevelFilter::current() returns OFF (process without a tracing subscriber)
-// @enc DcpsDomainParticipant::remove_discovered_reader
-// @enc UserDefinedDataWriter::remove_matched_subscription
-// @enc DcpsDomainParticipant::get_publication_matched_status
-#[kani::proof]
-#[kani::unwind(2)]
-#[kani::stub(critical_section::acquire, super::support_cs::cs_acquire)]
-#[kani::stub(critical_section::release, super::support_cs::cs_release)]
-#[kani::stub(tracing::level_filters::LevelFilter::current, super::support_qos::tracing_off)]
-fn c16_writer_reader_disposed_counts() {
-    s1::link_drop_glue();
-    writer_reader_disposed(kani::any(), false);
-}
-
-// @check props=C16 tier=quick known=KF-C16-3
-// @desc KNOWN FINDING: after the SEDP disposal of a matched remote reader (remove_discovered_reader) the writer's RTPS reader proxy for it is still present (transport_writer.delete_matched_reader is never called on this path): heartbeats, DATA and GAPs keep being addressed to the deleted reader and a reliable writer waits for its acknowledgements for ever (see KF-C03-2)
-// @bounds as c16_writer_reader_disposed_counts
-// @assume trigger: the disposed reader is matched with the writer
-// @assume stub: tracing LevelFilter::current() returns OFF
-// @enc DcpsDomainParticipant::remove_discovered_reader
-// @enc RtpsStatefulWriter::on_acknack_submessage_received
-#[kani::proof]
-#[kani::unwind(2)]
-#[kani::stub(critical_section::acquire, super::support_cs::cs_acquire)]
-#[kani::stub(critical_section::release, super::support_cs::cs_release)]
-#[kani::stub(tracing::level_filters::LevelFilter::current, super::support_qos::tracing_off)]
-fn c16_writer_reader_disposed_proxy__known() {
-    s1::link_drop_glue();
-    writer_reader_disposed(true, true);
-}
-
-// @check props=C16 tier=quick
-// @desc sibling of KF-C16-3 with the trigger negated: disposal of a remote reader that is NOT matched with the writer: matched set, counters and RTPS proxies unchanged, and there is no RTPS proxy for the disposed reader
-// @bounds as c16_writer_reader_disposed_counts
-// @assume negated trigger: the disposed reader is not matched with the writer
-// @assume stub: tracing LevelFilter::current() returns OFF
-// @enc DcpsDomainParticipant::remove_discovered_reader
-#[kani::proof]
-#[kani::unwind(2)]
-#[kani::stub(critical_section::acquire, super::support_cs::cs_acquire)]
-#[kani::stub(critical_section::release, super::support_cs::cs_release)]
-#[kani::stub(tracing::level_filters::LevelFilter::current, super::support_qos::tracing_off)]
-fn c16_writer_reader_disposed_proxy__rest() {
-    s1::link_drop_glue();
-    writer_reader_disposed(false, true);
-}
-
 fn writer_participant_removed(removed: u8) {
-    // readers: (1,1) of participant 1 and, if `two`, (q,2) of participant q in {1,2}; participant `removed` in {1,2,3} leaves
+    // one matched reliable reader (1,1) of remote participant 1; participant `removed` in {1,3} leaves
     let cap = sp::Capture::new();
     let mut p = sp::participant(&cap, 0);
-    let two: bool = TWO;
-    let q: u8 = if kani::any() { 1 } else { 2 };
-    let (_ph, _wh) = writer_fixture(&mut p, two, q);
-    let n = 1 + two as usize;
+    let (_ph, _wh) = writer_fixture(&mut p);
     let before = p.domain_participant.user_defined_publisher_list[0].data_writer_list[0].publication_matched_status.clone();
-    let gone1 = removed == 1;
-    let gone2 = two && removed == q;
-    let n_gone = gone1 as usize + gone2 as usize;
+    let gone = removed == 1;
 
     p.remove_discovered_participant(&s1::remote_participant_handle(removed));
 
-    let w = &mut p.domain_participant.user_defined_publisher_list[0].data_writer_list[0];
+    let w = &p.domain_participant.user_defined_publisher_list[0].data_writer_list[0];
     let len = w.matched_subscription_list.len();
     let s = w.publication_matched_status.clone();
-    assert!(sub_listed(w, s1::remote_reader_guid(1, 1)) == !gone1, "C16: readers of the departed participant leave the matched set, others stay");
-    if two {
-        assert!(sub_listed(w, s1::remote_reader_guid(q, 2)) == !gone2, "C16: readers of the departed participant leave the matched set, others stay (second reader)");
-    }
-    assert!(len == n - n_gone, "C16: matched set shrinks by the readers of the departed participant");
-    assert!(has_reader_proxy(w, s1::remote_reader_guid(1, 1)) == !gone1, "C16: RTPS proxies of departed readers are deleted, others kept");
+    assert!(sub_listed(w, s1::remote_reader_guid(1, 1)) == !gone, "C16: readers of the departed participant leave the matched set, others stay");
+    assert!(len == 1 - gone as usize, "C16: matched set shrinks by the readers of the departed participant");
+    // a reliable proxy that acknowledged nothing holds back sequence number 1: proxy present <=> not acknowledged
+    assert!(w.writer.transport_writer.is_change_acknowledged(1) == gone, "C16: RTPS proxies of departed readers are deleted, others kept");
     assert!(s.total_count == before.total_count && s.total_count_change == before.total_count_change, "C16: total_count unchanged by a departure");
     assert!(s.current_count == len as i32, "C16: current_count equals the number of matched readers after a participant departure");
-    assert!(s.current_count_change == before.current_count_change - n_gone as i32, "C16: current_count_change reflects the departure");
-    if removed == 1 {
-        kani::cover!(n_gone == n, "every matched reader belongs to the departed participant");
-    } else {
-        kani::cover!(n_gone == 0, "nobody departs");
-    }
+    assert!(s.current_count_change == before.current_count_change - gone as i32, "C16: current_count_change reflects the departure");
+    kani::cover!(true, "end reached");
     core::mem::forget(p);
 }
 
-// @check props=C16 tier=quick known=KF-C16-1
+// @check props=C16 tier=thorough known=KF-C16-1
 // @desc KNOWN FINDING: remove_discovered_participant (lease expiry, SPDP disposal, ignore_participant) removes the departed participant's readers from matched_subscription_list and deletes their RTPS proxies but does NOT update publication_matched_status: current_count keeps the old value (!= number of matched readers) and current_count_change does not record the drop (the status condition / listener are not notified either)
 // @bounds one writer, 1 matched reader of remote participant 1; participant 1 departs
 // @assume trigger: at least one matched reader belongs to the departed participant
@@ -473,7 +245,7 @@ fn c16_writer_participant_removed__known() {
     writer_participant_removed(1);
 }
 
-// @check props=C16 tier=quick
+// @check props=C16 tier=thorough
 // @desc sibling of KF-C16-1 with the trigger negated: a participant none of whose readers is matched with the writer departs (remove_discovered_participant): matched set, counters and RTPS proxies are unchanged
 // @bounds one writer, 1 matched reader of remote participant 1; participant 3 departs
 // @assume negated trigger: no matched reader belongs to the departed participant
@@ -487,105 +259,38 @@ fn c16_writer_participant_removed__rest() {
     writer_participant_removed(3);
 }
 
-fn reader_fixture(p: &mut DcpsDomainParticipant, two: bool, q: u8) -> (InstanceHandle, InstanceHandle) {
-    let sh = s1::new_subscriber(p);
+fn reader_fixture(p: &mut DcpsDomainParticipant) -> (InstanceHandle, InstanceHandle) {
+    let sh = s1::install_subscriber(p);
     let rh = s1::install_reader(p, 0, 0, "A", DataReaderQos::const_default());
     let r = &mut p.domain_participant.user_defined_subscriber_list[0].data_reader_list[0];
     s1::match_writer(r, s1::remote_writer_guid(1, 1), true);
-    if two {
-        s1::match_writer(r, s1::remote_writer_guid(q, 2), true);
-    }
     (sh, rh)
-}
-
-// @check props=C16 tier=quick
-// @desc SEDP disposal of a remote writer (remove_discovered_writer through the guarded hook) on a participant whose reader has 1 matched writer, disposed writer matched or not: it leaves the matched set, current_count == number of matched writers, current_count_change drops by 1 iff it was matched, total_count unchanged, the other writer stays; then get_subscription_matched_status (participant API) reports these values and a second read reports zero changes
-// @bounds one subscriber (real create), one reader installed directly, 1 matched writer; disposed writer matched or not
-// @assume reader installed directly (state of create_data_reader + enable); matches installed with the real add_matched_publication + add_matched_writer (success branch of process_discovered_writers)
-// @assume stub: tracing LevelFilter::current() returns OFF
-// @enc DcpsDomainParticipant::remove_discovered_writer
-// @enc UserDefinedDataReader::remove_matched_publication
-// @enc DcpsDomainParticipant::get_subscription_matched_status
-#[kani::proof]
-#[kani::unwind(2)]
-#[kani::stub(critical_section::acquire, super::support_cs::cs_acquire)]
-#[kani::stub(critical_section::release, super::support_cs::cs_release)]
-#[kani::stub(tracing::level_filters::LevelFilter::current, super::support_qos::tracing_off)]
-fn c16_reader_writer_disposed_counts() {
-    s1::link_drop_glue();
-    let cap = sp::Capture::new();
-    let mut p = sp::participant(&cap, 0);
-    let two: bool = TWO;
-    let (sh, rh) = reader_fixture(&mut p, two, 2);
-    let n = 1 + two as usize;
-    let before = p.domain_participant.user_defined_subscriber_list[0].data_reader_list[0].subscription_matched_status.clone();
-    assert!(before.current_count == n as i32 && before.total_count == n as i32 && before.current_count_change == n as i32, "harness: counters after the matches");
-    let matched: bool = kani::any();
-    let g = if matched { s1::remote_writer_guid(1, 1) } else { s1::remote_writer_guid(3, 1) };
-
-    p.verif_remove_discovered_writer(handle_of(g), sh, rh);
-
-    let r = &p.domain_participant.user_defined_subscriber_list[0].data_reader_list[0];
-    let len = r.reader.matched_publication_list.len();
-    assert!(!pub_listed(r, g), "C16: disposed writer is no longer in the matched set");
-    assert!(len == n - matched as usize, "C16: only the disposed writer leaves the matched set");
-    if two {
-        assert!(pub_listed(r, s1::remote_writer_guid(2, 2)), "C16: the other writer stays matched");
-    }
-    let st = p.get_subscription_matched_status(&sh, &rh);
-    match &st {
-        Ok(s) => {
-            assert!(s.current_count == len as i32, "C16: current_count equals the number of matched writers after a writer disposal");
-            assert!(s.current_count_change == n as i32 - matched as i32, "C16: current_count_change is the net change since the last read");
-            assert!(s.total_count == n as i32 && s.total_count_change == n as i32, "C16: total_count unchanged by a disposal");
-        }
-        Err(_) => assert!(false, "C16: status read on a live reader succeeds"),
-    }
-    let st2 = p.get_subscription_matched_status(&sh, &rh);
-    match &st2 {
-        Ok(s) => assert!(s.current_count_change == 0 && s.total_count_change == 0 && s.current_count == len as i32, "C16: a second read reports no change"),
-        Err(_) => assert!(false, "C16: status read on a live reader succeeds"),
-    }
-    kani::cover!(matched, "matched writer disposed");
-    kani::cover!(!matched, "unmatched writer disposed");
-    core::mem::forget(st);
-    core::mem::forget(st2);
-    core::mem::forget(p);
 }
 
 fn reader_participant_removed(removed: u8) {
     let cap = sp::Capture::new();
     let mut p = sp::participant(&cap, 0);
-    let two: bool = TWO;
-    let q: u8 = if kani::any() { 1 } else { 2 };
-    let (_sh, _rh) = reader_fixture(&mut p, two, q);
-    let n = 1 + two as usize;
+    let (_sh, _rh) = reader_fixture(&mut p);
     let before = p.domain_participant.user_defined_subscriber_list[0].data_reader_list[0].subscription_matched_status.clone();
-    let gone1 = removed == 1;
-    let gone2 = two && removed == q;
-    let n_gone = gone1 as usize + gone2 as usize;
+    let gone = removed == 1;
 
     p.remove_discovered_participant(&s1::remote_participant_handle(removed));
 
     let r = &mut p.domain_participant.user_defined_subscriber_list[0].data_reader_list[0];
     let proxy1 = r.reader.transport_reader.matched_writer_lookup(s1::remote_writer_guid(1, 1)).is_some();
-    assert!(proxy1 == !gone1, "C16: RTPS writer proxies of the departed participant are deleted, others kept");
+    assert!(proxy1 == !gone, "C16: RTPS writer proxies of the departed participant are deleted, others kept");
     let s = r.subscription_matched_status.clone();
     assert!(s.total_count == before.total_count && s.total_count_change == before.total_count_change, "C16: total_count unchanged by a departure");
-    assert!(pub_listed(r, s1::remote_writer_guid(1, 1)) == !gone1, "C16: writers of the departed participant leave the matched set, others stay");
+    assert!(pub_listed(r, s1::remote_writer_guid(1, 1)) == !gone, "C16: writers of the departed participant leave the matched set, others stay");
     let len = r.reader.matched_publication_list.len();
-    assert!(len == n - n_gone, "C16: matched set shrinks by the writers of the departed participant");
-    assert!(s.current_count == (n - n_gone) as i32, "C16: current_count equals the number of matched writers after a participant departure");
-    assert!(s.current_count_change == before.current_count_change - n_gone as i32, "C16: current_count_change reflects the departure (reader)");
-    if removed == 1 {
-        kani::cover!(n_gone == n, "every matched writer belongs to the departed participant");
-    } else {
-        kani::cover!(n_gone == 0, "nobody departs");
-    }
+    assert!(len == 1 - gone as usize, "C16: matched set shrinks by the writers of the departed participant");
+    assert!(s.current_count == 1 - gone as i32, "C16: current_count equals the number of matched writers after a participant departure");
+    assert!(s.current_count_change == before.current_count_change - gone as i32, "C16: current_count_change reflects the departure (reader)");
+    kani::cover!(true, "end reached");
     core::mem::forget(p);
 }
 
-// @check props=C16 tier=quick known=KF-C16-2
+// @check props=C16 tier=thorough known=KF-C16-2
 // @desc KNOWN FINDING: remove_discovered_participant deletes the RTPS writer proxies and the samples of the departed participant's writers on a local reader but leaves them in matched_publication_list and leaves subscription_matched_status untouched: get_matched_publications still lists the departed writers, current_count does not drop, no change is recorded
 // @bounds one reader, 1 matched writer of remote participant 1; participant 1 departs
 // @assume trigger: at least one matched writer belongs to the departed participant
@@ -599,7 +304,7 @@ fn c16_reader_participant_removed__known() {
     reader_participant_removed(1);
 }
 
-// @check props=C16 tier=quick
+// @check props=C16 tier=thorough
 // @desc sibling of KF-C16-2 with the trigger negated: a participant none of whose writers is matched with the reader departs: matched set, counters and RTPS writer proxies unchanged
 // @bounds one reader, 1 matched writer of remote participant 1; participant 3 departs
 // @assume negated trigger: no matched writer belongs to the departed participant
